@@ -28,6 +28,8 @@ def gen_tree(rng, depth=0, maxdepth=4, budget=None):
         return [name, gen_attrs(rng), True, []]
     if r < 0.2:
         name = rng.choice(RAW)
+        if rng.random() < 0.2:
+            return [name, gen_attrs(rng), True, []]          # written <script ... /> : self-closed
         body = rng.choice(['', 'var a = 1;', 'if (a < b && c > d) { x(); }', 'p { color: red }', '\n  x\n'])
         return [name, gen_attrs(rng), False, [body] if body else []]
     name = rng.choice(PRE if r < 0.28 else ORD)
@@ -64,15 +66,29 @@ def gen_attrs(rng):
     return out
 
 
-def build_api(st):
+def build_api(st, via_set=False):
+    """the tree built through the public DOM API: AdvancedTag(name, attrs) or - void names, every other attribute count, no class / style -
+    the document's createElement with the name in mixed case and setAttribute; via_set: every attribute through setAttribute, in order, the start tag read after each"""
     from AdvancedHTMLParser.Tags import AdvancedTag
     name, attrs, sc, blocks = st
-    t = AdvancedTag(name, [(n, v) for n, v in attrs], bool(sc))
+    special = any(n.lower() in ('class', 'style') for n, v in attrs)
+    if via_set:
+        t = AdvancedTag(name, [], bool(sc))
+        for n, v in attrs:
+            t.setAttribute(n, v if v is not None else '')
+            t.getStartTag()          # a read between the writes (it synchronises the class entry of the mapping)
+    elif name in VOIDS and len(attrs) % 2 == 1 and not special and len({n.lower() for n, v in attrs}) == len(attrs) and all(v is not None for n, v in attrs):
+        import AdvancedHTMLParser as A
+        t = A.AdvancedHTMLParser().createElement(name.title() if len(attrs) == 1 else name.upper())
+        for n, v in attrs:
+            t.setAttribute(n, v)
+    else:
+        t = AdvancedTag(name, [(n, v) for n, v in attrs], bool(sc))
     for b in blocks:
         if isinstance(b, str):
             t.appendText(b)
         else:
-            t.appendChild(build_api(b))
+            t.appendChild(build_api(b, via_set))
     return t
 
 
@@ -208,7 +224,7 @@ class C01(core.Check):
         import AdvancedHTMLParser as A
         out = {}
         if case['kind'] == 'api':
-            root = build_api(case['tree'])
+            root = build_api(case['tree'], case.get('via_set', False))
             out['orig_root'] = root
             out['s1'] = root.outerHTML
             out['d0'] = None
@@ -229,6 +245,8 @@ class C01(core.Check):
         return out
 
     def run_impl(self, case):
+        if case.get('via_set'):
+            return None          # the known finding's input (attributes set one by one): implementation and oracle only
         r = self._run(case)
         self._last = (id(case), r)
         streams = []
@@ -259,7 +277,7 @@ class C01(core.Check):
         import AdvancedHTMLParser as A
         from AdvancedHTMLParser.constants import TAG_ITEM_BINARY_ATTRIBUTES as BIN
         if case['kind'] == 'api':
-            root = build_api(case['tree'])
+            root = build_api(case['tree'], case.get('via_set', False))
             s1 = root.outerHTML
             orig = root
             multi = False
@@ -358,6 +376,8 @@ class C01(core.Check):
         return json.dumps(case, sort_keys=True) if sum(1 for t in case['toks'] if t[0] == 'S') >= 2 else None
 
     def finding_key(self, case, what):
+        if case.get('via_set') and what.startswith('round trip of'):
+            return 'class-style-position-after-setAttribute'
         return re.sub(r"'[^']*'|\"[^\"]*\"|\[.*$", '', what)[:60]
 
 
